@@ -1,0 +1,11 @@
+//go:build verif
+
+// Contracts for the macat command (comment-only; read by /verif/govc).
+
+package main
+
+//@ func main
+//@   ghost erun = result at call:Run#1
+//@   before call:Run#1 assert called("Initialize")
+//@   before call:fnvalue#1 assert !isnil(erun) && arg0 == 1
+//@   ensures !isnil(erun) ==> called("fnvalue")
